@@ -80,8 +80,9 @@ def single_reports(tier):
     triples = list(itertools.permutations(vs, 3))
     if tier == "quick":
         triples = triples[::5]
-    for key in ("MPos", "WPos"):
-        for pos in triples:
+    states = ["Idle", "Run", "Hold:0", "Jog", "Alarm", "Door:1", "Check", "Home", "Sleep"]
+    for si, key in enumerate(("MPos", "WPos")):
+        for ti, pos in enumerate(triples):
             for fs in (None, ("500", "8000"), ("0", "0")):
                 fields, _, exp, _ = grbl_status("Idle", key, pos, fs, None)
                 for k in (0, 2):
@@ -90,6 +91,10 @@ def single_reports(tier):
                         perms = itertools.permutations(allf) if len(allf) <= 3 else [allf, allf[::-1], allf[1:] + allf[:1]]
                         for p in perms:
                             yield "grbl-status", "<Idle|" + "|".join(p) + ">", exp
+                # every machine state Grbl reports (the state word is not a reading and not an error reply)
+                if ti % 7 == 0 or tier == "thorough":
+                    for state in states:
+                        yield "grbl-status", f"<{state}|" + "|".join(fields) + "|Pn:XZ>", exp
     for pos in triples:
         for ok in (0, 1):
             yield "grbl-probe", *probe_report(pos, ok)
@@ -140,7 +145,7 @@ BASIS = [
     ("T:180.25 /200.0", {"T": 180.25}),
     ("<Idle|MPos:5.000,6.000,-7.000|FS:500,8000|WCO:0.000,0.000,0.000>", {"X": 5.0, "Y": 6.0, "Z": -7.0, "F": 500.0, "S": 8000.0}),
     ("<Run|WPos:-1.500,0.000,12.250|Bf:15,128>", {"X": -1.5, "Y": 0.0, "Z": 12.25}),
-    ("<Hold:0|FS:0,0|MPos:0.000,0.000,0.000>", {"F": 0.0, "S": 0.0, "X": 0.0, "Y": 0.0, "Z": 0.0}),
+    ("<Alarm|FS:0,0|MPos:0.000,0.000,0.000|Pn:X>", {"F": 0.0, "S": 0.0, "X": 0.0, "Y": 0.0, "Z": 0.0}),
     ("[PRB:1.000,2.000,-3.500:1]", {"X": 1.0, "Y": 2.0, "Z": -3.5}),
     ("[PRB:0.000,0.000,0.000:0]", {"X": 0.0, "Y": 0.0, "Z": 0.0}),
     ("echo:busy: processing", {}),
